@@ -4,6 +4,7 @@ from __future__ import annotations
 
 import z3
 
+from sx.rt import reraise_model_gap  # noqa: F401
 from sx.rt import And, Implies, Not, Or, SBool, SInt, Unsupported, same_value
 
 from harness import segstep, step
@@ -73,6 +74,7 @@ def _switch(ctx, cfg, with_seg):
     except Unsupported:
         raise
     except Exception as e:
+        reraise_model_gap(e)
         exc = e
     tab1 = table(tr)
     reg1 = sorted(tr.features.keys())
@@ -123,6 +125,7 @@ def protect_harness(ctx, cfg):
         except Unsupported:
             raise
         except Exception as e:
+            reraise_model_gap(e)
             exc = e
         protected = key in managed or key == TK
         if protected:
@@ -180,6 +183,7 @@ def replay(f):
                 else:
                     tr.disable_features(list(inp["keys"]))
             except Exception as e:
+                reraise_model_gap(e)
                 exc = e
             tab1, reg1 = table(tr), sorted(tr.features.keys())
             attrs1 = {n: dict(d) for n, d in tr.graph.nodes(data=True)}
@@ -203,6 +207,7 @@ def replay(f):
         try:
             (UUA if inp["user"] else UA)(tr, 1, {inp["key"]: 7})
         except Exception as e:
+            reraise_model_gap(e)
             exc = e
         attrs1 = {n: dict(d) for n, d in tr.graph.nodes(data=True)}
         detail = f"flags={inp['flags']} update {inp['key']} -> exc={exc!r}"
